@@ -313,6 +313,8 @@ fn method_identity(c: &AMQPClass) -> String {
 pub struct ChannelExpectation {
     pub ch: u16,
     pub frames: Vec<(ExpFrame, String)>,
+    /// invoke stamp of the call each frame comes from (same length as frames)
+    pub stamps: Vec<u64>,
     pub defined: bool,
     pub why_undefined: String,
 }
@@ -322,13 +324,15 @@ pub fn expectations(hist: &History, frame_max: usize) -> Vec<ChannelExpectation>
     let mut by_ch: BTreeMap<u16, ChannelExpectation> = BTreeMap::new();
     // channels and which thread/slot they belong to
     for c in &hist.conn {
-        if let ConnRec::OpenChannel { result: Ok(id), for_thread, .. } = c {
-            let e = by_ch.entry(*id).or_insert(ChannelExpectation { ch: *id, frames: Vec::new(), defined: true, why_undefined: String::new() });
+        if let ConnRec::OpenChannel { result: Ok(id), for_thread, invoke, ret, .. } = c {
+            let e = by_ch.entry(*id).or_insert(ChannelExpectation { ch: *id, frames: Vec::new(), stamps: Vec::new(), defined: true, why_undefined: String::new() });
             // an id may be opened several times over a session (owner open/close cycles)
             e.frames.push((channel_open_frame(), format!("open_channel -> {}", id)));
+            e.stamps.push(*invoke);
             if *for_thread == 0 {
                 // channels the owner keeps for itself carry nothing but open and close
                 e.frames.push((channel_close_frame(), format!("owner closes {}", id)));
+                e.stamps.push(*ret);
             }
         }
     }
@@ -378,6 +382,7 @@ pub fn expectations(hist: &History, frame_max: usize) -> Vec<ChannelExpectation>
                         let chid = tag_channel[s];
                         if let Some(ec) = by_ch.get_mut(&chid) {
                             ec.frames.push((cancel_frame(&tags[s]), format!("final drop of consumer {}", tags[s])));
+                            ec.stamps.push(o.invoke);
                         }
                     }
                 }
@@ -391,6 +396,7 @@ pub fn expectations(hist: &History, frame_max: usize) -> Vec<ChannelExpectation>
                         let chid = tag_channel[*slot];
                         if let Some(ec) = by_ch.get_mut(&chid) {
                             ec.frames.push((cancel_frame(&tags[*slot]), format!("{:?}", o.op)));
+                            ec.stamps.push(o.invoke);
                         }
                     }
                 }
@@ -402,6 +408,7 @@ pub fn expectations(hist: &History, frame_max: usize) -> Vec<ChannelExpectation>
                                 for (i, m) in msgs.iter().enumerate() {
                                     if let Some(f) = ack_frame(&acks[i % acks.len()], m.delivery_tag) {
                                         ec.frames.push((f, format!("ack in {:?}", o.op)));
+                                        ec.stamps.push(o.invoke);
                                     }
                                 }
                             }
@@ -411,12 +418,21 @@ pub fn expectations(hist: &History, frame_max: usize) -> Vec<ChannelExpectation>
                 _ => {
                     for f in expect_op(&o.op, &o.mark, &o.result, frame_max, &tags, &mut cancelled) {
                         e.frames.push((f, format!("t{}#{} {:?}", o.thread, o.idx, short_op(&o.op))));
+                        e.stamps.push(o.invoke);
                     }
                 }
             }
         }
     }
-    by_ch.into_values().collect()
+    // an id can be closed and opened again (by the owner) during a session: order by time
+    let mut out: Vec<ChannelExpectation> = by_ch.into_values().collect();
+    for e in out.iter_mut() {
+        let mut idx: Vec<usize> = (0..e.frames.len()).collect();
+        idx.sort_by_key(|i| e.stamps[*i]);
+        e.frames = idx.iter().map(|i| e.frames[*i].clone()).collect();
+        e.stamps = idx.iter().map(|i| e.stamps[*i]).collect();
+    }
+    out
 }
 
 pub fn short_op(op: &Op) -> String {
